@@ -85,8 +85,14 @@ func ruleLoopsBounded(w *World, r *RuleResult) {
 				continue
 			}
 			if tabUsed[name] < len(loopTable[name]) {
-				r.ok(key, pos, "tabled: "+loopTable[name][tabUsed[name]], false)
+				variant := loopTable[name][tabUsed[name]]
 				tabUsed[name]++
+				// a digit-stripping loop (exit: remainder != 0) only terminates for a non-zero value
+				if strings.Contains(variant, "first non-zero digit") && !w.zeroExcludedAt(f, h) {
+					r.bad(key, pos, "the loop divides by ten until a remainder is non-zero, but no dominating test excludes a zero value (for zero every remainder is 0 and the loop never ends); a zero can reach it whenever the zero test is tied to one representation only")
+					continue
+				}
+				r.ok(key, pos, "tabled: "+variant, false)
 				continue
 			}
 			r.bad(key, pos, "loop that is neither counted, nor error-checked on every cycle, nor tabled with a variant (exit conditions: "+desc+")")
@@ -626,4 +632,37 @@ func (w *World) formAtReturns(f *ssa.Function, sel func(*ssa.Return) bool, okVal
 		}
 	}
 	return uniqStrings(bad)
+}
+
+// zeroExcludedAt: block h is dominated by a test that excludes a zero value of
+// one of f's Decimal parameters (Sign() == 0 false / != 0 true / IsZero()
+// false), in either the Decimal or the coefficient form.
+func (w *World) zeroExcludedAt(f *ssa.Function, h *ssa.BasicBlock) bool {
+	isParamBased := func(v ssa.Value) bool {
+		_, ok := basePtr(v).(*ssa.Parameter)
+		return ok
+	}
+	for _, g := range guardsAt(h) {
+		switch c := g.Cond.(type) {
+		case *ssa.Call:
+			n := w.calleeName(c)
+			if (n == "(*Decimal).IsZero") && !g.Val && isParamBased(c.Common().Args[0]) {
+				return true
+			}
+		case *ssa.BinOp:
+			call, isC := c.X.(*ssa.Call)
+			k, isK := c.Y.(*ssa.Const)
+			if !isC || !isK || ci(k) != 0 {
+				continue
+			}
+			n := w.calleeName(call)
+			if n != "(*Decimal).Sign" && n != "(*BigInt).Sign" || !isParamBased(call.Common().Args[0]) {
+				continue
+			}
+			if (c.Op == token.EQL && !g.Val) || (c.Op == token.NEQ && g.Val) {
+				return true
+			}
+		}
+	}
+	return false
 }
